@@ -7,8 +7,8 @@ props = [json.loads(l) for l in open(os.path.join(V, 'properties.jsonl'))]
 E1 = "E1 vinst+vsched (real code under a cooperative scheduler, preemption-bounded exhaustive schedule enumeration)"
 claimed = {
  "C05": dict(engine=E1, design="5 (C05), 2 (E1)",
-   text="Every schedule, up to the stated preemption bound, of ~1300 closed scenarios {9 histories that leave events or an error pending} x {9 control programs incl. Close||Close, Close||Add, Add||Remove} x {6 consumer configurations} x {3 Events capacities} is executed on the instrumented real code against the real kernel; the property holds iff no maximal execution ends with an API call that has not returned. Exhaustive within the bound, which is the right level for a deadlock/liveness property of a 3-4 thread protocol.",
-   note="Trusted: vinst's mechanical rewrite (sync/channel/select/go/inotify syscalls -> shim), the shim's Go channel and mutex semantics, sequential consistency at synchronisation points. Bounds: preemption bound 1-2 (quick) / 2-3 (thorough), the listed scenario product.",
+   text="Every schedule, up to the stated preemption bound, of ~2100 closed scenarios {12 histories: nothing ever added, idle, events or an error pending, a move in from an unwatched place followed by renames, injected overflow, read fault/short read/EOF} x {10 control programs incl. Close||Close, Close||Add, Add||Remove} x {6 consumer configurations} x {3 Events capacities} is executed on the instrumented real code against the real kernel; the property holds iff no maximal execution ends with an API call that has not returned. Also four sequential move histories (with and without a stored rename cookie, in bursts) whose oracle is just that every call returned. Exhaustive within the bound, which is the right level for a deadlock/liveness property of a 3-4 thread protocol; the thorough tier adds global-state-key pruning and, under a time budget per scenario, a pass without any preemption bound whose reach is reported separately in the evidence.",
+   note="Trusted: vinst's mechanical rewrite (sync/channel/select/go/inotify syscalls -> shim), the shim's Go channel and mutex semantics, sequential consistency at synchronisation points. Bounds: preemption bound 1-2 (quick) / 2-3 (thorough), the listed scenario product. State-key pruning (thorough only) additionally trusts that shared memory is read under a mutex (checked by the lockset probes on every execution) and the key's description of kernel state (DESIGN section 2).",
    technique="stateless model checking: exhaustive preemption-bounded schedule enumeration of the real code under a controlled scheduler"),
  "C06": dict(engine=E1, design="5 (C06), 2 (E1)",
    text="Same executions as C05; on every one the shim enforces Go's channel protocol (send on / close of a closed channel is reported instead of panicking), and once a Close has returned the end state must have Events and Errors closed, the reader thread terminated, no value received after a consumer observed the close, and post-close Add/Remove/WatchList must answer ErrClosed/nil/nil.",
@@ -22,11 +22,11 @@ claimed = {
 E4 = "E4 vxgen+vpure (exhaustive enumeration of complete finite input domains against independent references)"
 claimed.update({
  "C15": dict(engine=E4, design="5 (C15), 2 (E4)",
-   text="Every input of every translation table is enumerated, none sampled: all 2^16 combinations of the 12 inotify event bits plus ISDIR/IGNORED/UNMOUNT/Q_OVERFLOW through the real newEvent; all 2^9 operation subsets x {follow, no-follow} through a real AddWith on the real kernel with the resulting kernel-side mask and inode read back from /proc/self/fdinfo; all 2^11 kqueue fflags x link-name present/absent and the subscribed note set; all 2^13 Windows masks through newEvent and toWindowsFlags, all action codes 0..8 through toFSnotifyFlags and their composition; xSupports of all four back ends over all 2^9 subsets. Each against an independently written reference table (union-of-parts by construction).",
+   text="Every input of every translation table is enumerated, none sampled: all 2^16 combinations of the 12 inotify event bits plus ISDIR/IGNORED/UNMOUNT/Q_OVERFLOW through the real newEvent; all 2^9 operation subsets x {follow, no-follow} through a real AddWith on the real kernel with the resulting kernel-side mask and inode read back from /proc/self/fdinfo, and every ordered triple of non-empty subsets of the five portable operations requested one after the other for one path (thorough: every ordered pair over all nine, every 4-tuple over the single ones and the default) with the mask compared after each call; all 2^11 kqueue fflags x link-name present/absent and the subscribed note set; all 2^13 Windows masks through newEvent and toWindowsFlags, all action codes 0..8 through toFSnotifyFlags and their composition; xSupports of all four back ends over all 2^9 subsets. Each against an independently written reference table (union-of-parts by construction). Not only from the initial state: E2 histories on the real code with a directory and two of its entries watched under every pair of 8 operation sets, and repeated requests with a Remove in between, judged by the sequential reference model (a record the kernel produced for what was subscribed must surface as its operation) and by 'kernel mask of each watch = flags for the union of what was requested for it'.",
    note="The kqueue functions come from the full transplant of that back end (verif/gen/kq); the Windows/FEN functions are extracted textually from the working tree (vxgen) and compiled against constants parsed from golang.org/x/sys v0.13.0; if a change makes them depend on other back-end code the extraction fails as an engine error, not as a verdict. The request-side reference is the documented per-operation flag set.",
    technique="exhaustive input-space enumeration (depth-1 bounded model checking) against a reference table"),
  "C16": dict(engine=E4, design="5 (C16), 2 (E4)",
-   text="Op.Has and Event.Has over the whole stated domain squared (quick: the 2^9 defined-bit values plus every single undefined bit and all-ones patterns; thorough: all 2^16 x 2^16 pairs = 4.3e9) against set intersection; Op.String over all 2^16 low values plus every defined subset x every high bit against a reference rendering whose order is taken from the rendering of the full set (so any fixed order passes), with injectivity on the 512 defined subsets and '[no events]' iff no defined bit; Event.String over 13 names (empty, quotes, newline, invalid UTF-8, NUL, 255 bytes, containing the arrow) x 13 old names x 12 op values.",
+   text="Op.Has and Event.Has over the whole stated domain squared (quick: the 2^9 defined-bit values plus every single undefined bit and all-ones patterns; thorough: all 2^16 x 2^16 pairs = 4.3e9) against set intersection; Op.String over all 2^16 low values plus every defined subset x every high bit against a reference rendering whose order is taken from the rendering of the full set (so any fixed order passes), with injectivity on the 512 defined subsets and '[no events]' iff no defined bit; Event.Has also on events that carry the old name of a rename; Event.String over 13 names (empty, quotes, newline, invalid UTF-8, NUL, 255 bytes, containing the arrow) x 13 old names x 14 op values, plus every byte value alone and embedded and eight runes that %q escapes, as name, as old name and as both.",
    note="Names of operations are taken from the documentation (CREATE ... CLOSE_READ); spacing inside Event.String is not constrained, content and order are.",
    technique="exhaustive input-space enumeration against an independent reference"),
  "C20": dict(engine=E4, design="5 (C20), 2 (E4)",
@@ -89,7 +89,7 @@ claimed.update({
 E3 = "E3 kqueue back end transplanted onto a simulated kqueue (engine/kqsim, kharness) + BFS / schedule enumeration"
 claimed.update({
  "C17": dict(engine=E3, design="5 (C17), 2 (E3)",
-   text="backend_kqueue.go, shared.go, fsnotify.go and system_bsd.go are copied from the working tree at check time, instrumented like the inotify back end and compiled on Linux against a simulated kqueue (descriptor table with lowest-free allocation, knotes, OR-ed pending fflags, activation order). (a) BFS (depth 4 quick / 7 thorough) over Add/Remove/Close and filesystem steps on a directory holding files, a sub-directory, a symlink, a FIFO and an unreadable file: in every state the simulator's descriptor table must equal the back end's wd table, every open descriptor must still be warranted (its file not deleted/renamed, it or its directory still user-watched), WatchList must be exactly the user's paths, nothing may be open after Close, and descriptors and all five tables must be empty once everything was removed. (b) Every schedule up to preemption bound 1 (thorough: 2) of Close racing Remove/Add/Close and/or a filesystem change being handled by the reader, with the same end-state oracle. The simulation is bound to reality by replaying all 66 testdata scripts of the working tree: the 41 that run on FreeBSD agree with their recorded freebsd/kqueue/default expectation (count and any disagreement are in the evidence).",
+   text="backend_kqueue.go, shared.go, fsnotify.go and system_bsd.go are copied from the working tree at check time, instrumented like the inotify back end and compiled on Linux against a simulated kqueue (descriptor table with lowest-free allocation, knotes, OR-ed pending fflags, activation order). (a) BFS (depth 4 quick / 7 thorough) over Add/Remove/Close and filesystem steps on a directory holding files, a sub-directory, a symlink, a FIFO and an unreadable file: in every state the simulator's descriptor table must equal the back end's wd table, every open descriptor must still be warranted (its file not deleted/renamed, it or its directory still user-watched), WatchList must be exactly the user's paths, nothing may be open after Close, and descriptors and all five tables must be empty once everything was removed. (b) Every schedule up to preemption bound 1 (thorough: 2 with global-state-key pruning, then without any bound under a time budget per scenario; how far that got is in the evidence) of Close racing Remove/Add/Close and/or a filesystem change being handled by the reader, with the same end-state oracle. The simulation is bound to reality by replaying all 66 testdata scripts of the working tree: the 41 that run on FreeBSD agree with their recorded freebsd/kqueue/default expectation (count and any disagreement are in the evidence).",
    note="Fidelity of the simulated kernel is bounded by the recorded expectations; NOTE rules: create/symlink/mkfifo -> WRITE on the directory, mkdir/rmdir -> WRITE|LINK (+DELETE on the removed directory), unlink -> WRITE + DELETE, rename -> WRITE on both directories, RENAME on the vnode, DELETE on an overwritten target, write -> WRITE|EXTEND, truncate/chmod -> ATTRIB; hard links left out.",
    technique="explicit-state BFS plus preemption-bounded schedule enumeration of the transplanted back end on a simulated kernel validated by replaying recorded BSD expectations"),
  "C18": dict(engine=E3, design="5 (C18), 2 (E3)",
